@@ -60,7 +60,27 @@ def boxcar_instances(tier):
     return out
 
 
-FAMILIES = {"nucleo_sort": sort_instances, "nucleo_boxcar": boxcar_instances}
+def proto_instances(tier):
+    out = []
+    q = tier == "quick"
+    def add(name, unwind, expr, props, bounds, rules=None):
+        i = Inst(name, unwind, expr, props, bounds, "nucleo_proto")
+        i.small = True
+        i.unwind_rules = rules or PROTO_RULES
+        out.append(i)
+    for st in ([3] if q else [3, 4, 5]):
+        add("injector_count_s%d" % st, 8, "injector_count::<%d>()" % st, ["C20"],
+            {"steps": st, "operations": "symbolic among injector/clone/drop/restart(b)/tick(0)/run completes", "handle_slots": 3})
+    for it in ([1] if q else [0, 1, 2]):
+        add("wakeup_i%d" % it, 8, "wakeup::<%d>()" % it, ["C13", "C06", "C19"],
+            {"items": it, "ticks": 2, "timed_lock_outcomes": "symbolic: acquired in time / timed out / timed out and the run finishes before the tick re-arms", "worker_threads": 1})
+    return out
+
+
+# loops that really iterate more than the global bound (resolved per binary with cbmc --show-loops)
+PROTO_RULES = [(r"array.*map|drain_array_with|try_from_fn|from_fn", 33), (r"boxcar.*Vec.*drop|boxcar::Vec.*as.*Drop", 33)]
+
+FAMILIES = {"nucleo_sort": sort_instances, "nucleo_boxcar": boxcar_instances, "nucleo_proto": proto_instances}
 
 
 def all_instances(tier):
@@ -71,6 +91,9 @@ def all_instances(tier):
 
 
 def write_gen(sc, tier, extra=(), small=None):
+    # RUSTFLAGS reach the nucleo-matcher dependency too: its harness module needs its generated files
+    import matcher_props
+    matcher_props.write_gen(sc, "quick")
     fams = {}
     for i in list(all_instances(tier)) + list(extra):
         if i.family and (small is None or getattr(i, "small", True) == small):
